@@ -69,6 +69,7 @@ type valExpect struct {
 	pulls  []*absint.Int
 	skip   map[string]bool
 	alt    map[string]*refVal // an equivalent spelling of fields[name], accepted as well
+	when   map[string]*absint.BExpr // fields[name] is prescribed only on paths where this holds
 	forced map[string]bool // propositions fixed for this comparison
 	bools  map[string]bool // boolean fields (Stopped)
 }
@@ -94,7 +95,7 @@ func refSemantics(rc *refCell, bc *absint.BoolCtx, decimal bool) (*valExpect, st
 	o := rc.o
 	c := rc.c
 	mn := rc.ref.Mn
-	ex := &valExpect{fields: map[string]*refVal{}, flags: map[string]*absint.BExpr{}, flagV: map[string]*absint.Int{}, skip: map[string]bool{}, alt: map[string]*refVal{}, forced: map[string]bool{}, bools: map[string]bool{}}
+	ex := &valExpect{fields: map[string]*refVal{}, flags: map[string]*absint.BExpr{}, flagV: map[string]*absint.Int{}, skip: map[string]bool{}, alt: map[string]*refVal{}, when: map[string]*absint.BExpr{}, forced: map[string]bool{}, bools: map[string]bool{}}
 	reg := rc.reg
 	k8 := func(v uint64) *absint.Int { return rc.k(8, v) }
 	k16 := func(v uint64) *absint.Int { return rc.k(16, v) }
@@ -165,9 +166,37 @@ func refSemantics(rc *refCell, bc *absint.BoolCtx, decimal bool) (*valExpect, st
 	} else {
 		ex.skip["RXl"], ex.skip["RYl"] = true, true
 	}
-	skipAllRegs := func() {
+	// width switches (REP/SEP/PLP/RTI/XCE): the exit widths depend on data, so each
+	// register copy is prescribed only where it is the authoritative one at exit. The
+	// 16-bit accumulator survives a switch unchanged (its halves are re-split or
+	// re-joined); an index register entering 8-bit mode loses its high byte and one
+	// leaving it is zero-extended.
+	widthSwitch := func() {
 		for _, n := range []string{"RA", "RAl", "RAh", "RX", "RXl", "RY", "RYl"} {
-			ex.skip[n] = true
+			delete(ex.skip, n)
+		}
+		m8, x8 := ex.flags["M"], ex.flags["X"]
+		if m8 == nil {
+			m8 = flagIn("M")
+		}
+		if x8 == nil {
+			x8 = flagIn("X")
+		}
+		set("RA", C16)
+		ex.when["RA"] = absint.BNot(m8)
+		set("RAl", lo8(C16))
+		ex.when["RAl"] = m8
+		set("RAh", hi8(C16))
+		ex.when["RAh"] = m8
+		for _, n := range []string{"X", "Y"} {
+			full := rc.X16
+			if n == "Y" {
+				full = rc.Y16
+			}
+			set("R"+n, full)
+			ex.when["R"+n] = absint.BNot(x8)
+			set("R"+n+"l", lo8(full))
+			ex.when["R"+n+"l"] = x8
 		}
 	}
 	PC, SP := reg("PC"), reg("SP")
@@ -531,7 +560,7 @@ func refSemantics(rc *refCell, bc *absint.BoolCtx, decimal bool) (*valExpect, st
 		nz(v)
 	case "plp":
 		setFlagsFrom(pull())
-		skipAllRegs()
+		widthSwitch()
 	case "rep", "sep":
 		m := rc.ib(1)
 		for i, n := range []string{"C", "Z", "I", "D", "X", "M", "V", "N"} {
@@ -541,7 +570,7 @@ func refSemantics(rc *refCell, bc *absint.BoolCtx, decimal bool) (*valExpect, st
 				ex.flags[n] = absint.BOr(flagIn(n), bit(m, i))
 			}
 		}
-		skipAllRegs()
+		widthSwitch()
 	case "xce":
 		ex.flags["C"] = flagIn("E")
 		ex.flags["E"] = flagIn("C")
@@ -549,7 +578,7 @@ func refSemantics(rc *refCell, bc *absint.BoolCtx, decimal bool) (*valExpect, st
 		ex.flags["M"] = absint.BOr(flagIn("M"), flagIn("C"))
 		ex.flags["X"] = absint.BOr(flagIn("X"), flagIn("C"))
 		ex.fields["SP"] = rvIte(flagIn("C"), rvLeaf(o.Or(o.And(SP, k16(0x00FF)), k16(0x0100))), rvLeaf(SP))
-		skipAllRegs()
+		widthSwitch()
 	case "clc":
 		ex.flags["C"] = absint.BConst(false)
 	case "sec":
@@ -632,7 +661,7 @@ func refSemantics(rc *refCell, bc *absint.BoolCtx, decimal bool) (*valExpect, st
 		setFlagsFrom(pull())
 		set("PC", pull16())
 		set("RK", pull())
-		skipAllRegs()
+		widthSwitch()
 	case "brk", "cop":
 		push(reg("RK"))
 		push16(o.Add(PC, k16(2)))
@@ -863,9 +892,26 @@ func (pe *pathExplorer) resolveRef(r *refVal, k func(*absint.Int)) {
 // compareValue decides impl == ref as terms on every path through the gating
 // conditions of both; returns "" or a description of the first difference.
 func compareValue(rc *refCell, bc *absint.BoolCtx, impl *absint.Int, ref *refVal, forced map[string]bool) string {
+	return compareValueWhen(rc, bc, impl, ref, forced, nil)
+}
+
+// compareValueWhen is compareValue restricted to the paths on which `when` holds.
+func compareValueWhen(rc *refCell, bc *absint.BoolCtx, impl *absint.Int, ref *refVal, forced map[string]bool, when *absint.BExpr) string {
 	pe := newExplorer(rc.o, bc, forced)
 	diff := ""
+	guarded := func(k func()) {
+		if when == nil {
+			k()
+			return
+		}
+		pe.branch(when, func(holds bool) {
+			if holds {
+				k()
+			}
+		})
+	}
 	pe.resolve(impl.Lin, func(got *absint.Int) {
+		guarded(func() {
 		pe.resolveRef(ref, func(want *absint.Int) {
 			if diff != "" {
 				return
@@ -882,6 +928,7 @@ func compareValue(rc *refCell, bc *absint.BoolCtx, impl *absint.Int, ref *refVal
 				diff = fmt.Sprintf("is %s, the model prescribes %s%s", trunc(g.Lin.Key()), trunc(w.Lin.Key()), pe.describe())
 				pe.over = true
 			}
+		})
 		})
 	})
 	if diff == "" && pe.over {
@@ -1029,7 +1076,7 @@ func checkValues(ctx *Ctx, isa *ISA, m *CPUModel, rs string, results []*CellResu
 					want = rvLeaf(rc.reg(name))
 				}
 				out.nFields++
-				if d := compareValue(rc, bc, fv, want, ex.forced); d != "" {
+				if d := compareValueWhen(rc, bc, fv, want, ex.forced, ex.when[name]); d != "" {
 					if a := ex.alt[name]; a != nil && compareValue(rc, bc, fv, a, ex.forced) == "" {
 						continue
 					}
